@@ -93,4 +93,41 @@ theorem idftSeg_shift (D : ℕ) (hD : D ≠ 0) (shift : ℤ) (X : List ℂ) (ks 
       simp only [List.zipWith_cons_cons, List.sum_cons, ih ks]
       rw [mulPhaseC, mul_assoc, phase_mul_basis D hD]
 
+/-! ## the full-band case is the textbook inverse DFT -/
+
+theorem bins_full (D : ℕ) : bins D 0 D = List.range D := by
+  unfold bins
+  rw [List.range_eq_range']
+  conv_rhs => rw [← List.map_id (List.range' 0 D)]
+  apply List.map_congr_left
+  intro k hk
+  simp only [List.mem_range'_1] at hk
+  exact Nat.mod_eq_of_lt (by omega)
+
+theorem zipWith_range (X : List ℂ) (f : ℂ → ℕ → ℂ) :
+    List.zipWith f X (List.range X.length) = (List.range X.length).map (fun k => f (X.getD k 0) k) := by
+  apply List.ext_getElem
+  · simp
+  · intro i h1 h2
+    simp at h1 h2 ⊢
+    simp [h1]
+
+theorem list_sum_range_map' (f : ℕ → ℂ) (n : ℕ) :
+    ((List.range n).map f).sum = ∑ i ∈ Finset.range n, f i := by
+  induction n with
+  | zero => simp
+  | succ n ih => rw [List.sum_range_succ, Finset.sum_range_succ, ih]
+
+/-- textbook inverse DFT of a full spectrum `X[0..D)` -/
+noncomputable def idft (X : List ℂ) (n : ℤ) : ℂ :=
+  (∑ k ∈ Finset.range X.length, X.getD k 0 * cexp (2 * (Real.pi : ℂ) * I * (k : ℂ) * (n : ℂ) / (X.length : ℂ)))
+    / (X.length : ℂ)
+
+/-- for a full-band spectrum (`start = 0`, `D = len`) `idftSeg` is the textbook inverse DFT -/
+theorem idftSeg_fullband (X : List ℂ) (n : ℤ) :
+    idftSeg X.length (bins X.length 0 X.length) X n = idft X n := by
+  unfold idftSeg idft
+  rw [bins_full, zipWith_range, list_sum_range_map']
+  rfl
+
 end PdsVerif.C20.Circ
